@@ -50,7 +50,7 @@ def run(ns, op, timeout=120):
 # ---------------------------------------------------------------------------------------------
 # oracle
 # ---------------------------------------------------------------------------------------------
-MUT_OPS = ("create", "truncate", "write", "close")
+MUT_OPS = ("create", "truncate", "open-rw", "write", "close")
 
 
 def io_failures(obs):
@@ -151,7 +151,7 @@ def check_basic(obs, case, ref_obs=None):
     state = {}
     multi = set()
     for (_seq, op_, path, detail) in obs["events"]:
-        if op_ in ("create", "truncate"):
+        if op_ in ("create", "truncate", "open-rw"):
             if path in state:
                 multi.add(path)
             state[path] = "open"
@@ -210,7 +210,7 @@ def check_f1(obs, case, muts, outs_f):
     failed_paths = [p for p, _d in outs_f]
     opened = []
     for (_s, op, path) in muts:
-        if op in ("create", "truncate") and path not in opened:
+        if op in ("create", "truncate", "open-rw") and path not in opened:
             opened.append(path)
     for p in opened:
         if p not in allowed:
